@@ -69,6 +69,16 @@ CLAIMED = {
             "activation; no shared field has both a rebinding and an in-place mutation site (lost update); no global/nonlocal, no mutable "
             "defaults. Not decided: thread-safety inside pyca/OpenSSL objects of a shared key; schedules as such are not explored.",
             "pyca/OpenSSL thread-safety; per-call header/claims/message objects (statement)", "5/C20"),
+    "C18": ("static analysis: must-originate value-flow slices of IV / CEK / key-wrap IV / salt / key material to CSPRNG call sites, "
+            "partial evaluation of every generate_iv / generate_cek with the folded model instances, activation / escape rule on CSPRNG calls",
+            "Decides source, size and no-reuse: the iv argument of enc.encrypt slices to {secrets.token_bytes} only; non-direct CEKs slice "
+            "to token_bytes (direct / agreed keys are barriers) and the constant initialiser cannot reach a key-management call; the GCM-KW "
+            "IV and every generated PBES2 salt are CSPRNG calls; all four generate_key paths build the key from a pyca generator / "
+            "token_bytes; each generate_iv/generate_cek folds to token_bytes(required size) for all 8 enc models, GCM-KW 96 bit, salt >= 8, "
+            "DEFAULT_P2C >= 1000, RSA e=65537, EC/OKP requested curve; no CSPRNG call is made at import / in a default / in a cached "
+            "function or stored on shared state; the ephemeral key is generated per recipient on its curve; `random` only selects keys. "
+            "Not decided: statistical distinctness (no constant, counter, cache, parameter or field can reach the sinks instead).",
+            "secrets / os.urandom / pyca generators are strong sources", "5/C18"),
 }
 
 NOT_YET = "check not built yet (build in progress; see DESIGN.md section 5 for the planned rules)"
